@@ -95,6 +95,7 @@ class CellSpanningForest(SpanningForest):
         super().__init__(mesh)
 
     def compute(self) -> None : 
+        self.trees, self.roots = [], [] # a forest computed again starts from scratch
         visited = [False]*len(self.mesh.cells)
         for c in self.mesh.id_cells:
             if not visited[c]:
